@@ -24,4 +24,14 @@ theorem gen_streamSize (s : Stream) : s.size = Generated.streamSize s.r.b s.r.e 
 theorem gen_streamOffset (s : Stream) : s.offset = Generated.streamOffset s.r.b s.r.e s.cur := by
   simp [Stream.offset, Generated.streamOffset]
 
+/-- **What a stream asks of its source on a read is the source's request**: the length
+    `min(buf.len(), region.end - offset)` computed by `ByteStream::read` (translated on every run) is the bound
+    of the model's `Stream.read` before the source's own end is taken into account; the bytes returned and the
+    cursor advance follow from it. -/
+theorem gen_streamRead (s : Stream) (n short : Nat) :
+    let req := Generated.streamReadRequest s.r.b s.r.e s.cur n
+    let got := if short = 0 then min req (s.src.length - s.cur) else min short (min req (s.src.length - s.cur))
+    s.read n short = (slice s.src s.cur got, { s with cur := s.cur + got }) := by
+  simp [Stream.read, Generated.streamReadRequest]
+
 end Jubako
